@@ -37,7 +37,7 @@ theorem ops_Supports2 :
 theorem ops_GetPwm : (modelOps indef curve now).fan_GetPwm w = goRead 0 (fanGetPwm w.dev) w := rfl
 theorem ops_SetPwm (v : Int) :
     (modelOps indef curve now).fan_SetPwm v w
-      = (.ok (errOf (fanSetPwm w.dev v).2), { w with dev := (fanSetPwm w.dev v).1 }) := rfl
+      = (.ok (t3ErrOf (fanSetPwm w.dev v).2), { w with dev := (fanSetPwm w.dev v).1 }) := rfl
 theorem ops_GetMinPwm : (modelOps indef curve now).fan_GetMinPwm w = (.ok w.fan.getMin, w) := rfl
 theorem ops_GetRpm : (modelOps indef curve now).fan_GetRpm w = modelGetRpm w := rfl
 theorem ops_GetRpmAvg : (modelOps indef curve now).fan_GetRpmAvg w = (.ok w.fan.getRpmAvg, w) := rfl
@@ -45,7 +45,7 @@ theorem ops_SetRpmAvg (x : F64) :
     (modelOps indef curve now).fan_SetRpmAvg x w = (.ok (), { w with fan := w.fan.setRpmAvg indef x }) := rfl
 theorem ops_SetPwmEnabled (v : Int) :
     (modelOps indef curve now).fan_SetPwmEnabled v w
-      = (.ok (errOf (setPwmEnabled w.fan w.dev v).2.1), { w with dev := (setPwmEnabled w.fan w.dev v).1 }) := rfl
+      = (.ok (t3ErrOf (setPwmEnabled w.fan w.dev v).2.1), { w with dev := (setPwmEnabled w.fan w.dev v).1 }) := rfl
 theorem ops_UpdateCurve (p : Int) (x : F64) :
     (modelOps indef curve now).fan_UpdateFanRpmCurveValue p x w = modelUpdateCurveValue p x w := rfl
 theorem ops_get_lastSet : (modelOps indef curve now).get_lastSetPwm w = (.ok w.ctl.lastSet, w) := rfl
@@ -80,8 +80,8 @@ theorem go_mapGetOpt_eq (c : Ctl) (k : Int) : Go.mapGetOpt c.pwmMap k = applyPwm
   · rfl
   · exact go_mapGet_eq _ _
 
-theorem errOf_unit_eq_none (r : Res Unit) : errOf r = none ↔ r = .ok () := by
-  cases r <;> simp [errOf]
+theorem errOf_unit_eq_none (r : Res Unit) : t3ErrOf r = none ↔ r = .ok () := by
+  cases r <;> simp [t3ErrOf]
 
 /-- `fan.GetPwm()` of the model never panics -/
 theorem fanGetPwm_cases (d : Dev) : (∃ v, fanGetPwm d = .ok v) ∨ (∃ e, fanGetPwm d = .err e) := by
@@ -116,14 +116,14 @@ theorem fanGetRpm_cases (f : FanSt) (d : Dev) :
 /-- the Go result of `getPwm` on a model world, exactly: value 0 next to an error -/
 theorem getPwm_exact :
     Generated3.ctl_getPwm indef (modelOps indef curve now) w
-      = (.ok ((match ctlGetPwm w with | .ok v => v | _ => 0), errOf (ctlGetPwm w)), w) := by
+      = (.ok ((match ctlGetPwm w with | .ok v => v | _ => 0), t3ErrOf (ctlGetPwm w)), w) := by
   unfold Generated3.ctl_getPwm ctlGetPwm
   simp only [run_bind, run_pure, run_ite, ops_Supports0, ops_GetPwm, ops_get_lastSet, ops_GetMinPwm]
   cases hs : supports w.fan w.dev .pwmSensor
-  · cases hl : w.ctl.lastSet <;> simp [run_deref_some, errOf]
+  · cases hl : w.ctl.lastSet <;> simp [run_deref_some, t3ErrOf]
   · rcases fanGetPwm_cases w.dev with ⟨v, hv⟩ | ⟨e, he⟩
-    · simp [hv, goRead, errOf]
-    · simp [he, goRead, errOf]
+    · simp [hv, goRead, t3ErrOf]
+    · simp [he, goRead, t3ErrOf]
 
 end T3A
 
@@ -136,28 +136,28 @@ theorem trans3_getPwm :
     ∃ g, Generated3.ctl_getPwm indef (modelOps indef curve now) w = (.ok g, w) ∧ Agrees g (ctlGetPwm w) := by
   refine ⟨_, getPwm_exact indef curve now w, ?_⟩
   rcases ctlGetPwm_cases w with ⟨v, hv⟩ | ⟨e, he⟩
-  · simp [hv, Agrees, errOf]
-  · simp [he, Agrees, errOf]
+  · simp [hv, Agrees, t3ErrOf]
+  · simp [he, Agrees, t3ErrOf]
 
 /-- (2) `trySetManualPwm` -/
 theorem trans3_trySetManualPwm :
     Generated3.ctl_trySetManualPwm indef (modelOps indef curve now) w
-      = (.ok (errOf (trySetManualPwm w.fan w.dev).2.1), { w with dev := (trySetManualPwm w.fan w.dev).1 }) := by
+      = (.ok (t3ErrOf (trySetManualPwm w.fan w.dev).2.1), { w with dev := (trySetManualPwm w.fan w.dev).1 }) := by
   unfold Generated3.ctl_trySetManualPwm trySetManualPwm
   simp only [run_bind, run_pure, run_ite, ops_Supports2, ops_SetPwmEnabled]
   cases hs : supports w.fan w.dev .controlMode
-  · simp [errOf]
+  · simp [t3ErrOf]
   · rcases h1 : setPwmEnabled w.fan w.dev 1 with ⟨d1, r1, o1⟩
     cases r1 with
     | ok u =>
       cases u
-      simp [errOf]
+      simp [t3ErrOf]
     | err e =>
       rcases h2 : setPwmEnabled w.fan d1 0 with ⟨d2, r2, o2⟩
-      cases r2 <;> simp [errOf, h2]
+      cases r2 <;> simp [t3ErrOf, h2]
     | panic p =>
       rcases h2 : setPwmEnabled w.fan d1 0 with ⟨d2, r2, o2⟩
-      cases r2 <;> simp [errOf, h2]
+      cases r2 <;> simp [t3ErrOf, h2]
 
 /-- (3) `findClosestDistinctTarget` -/
 theorem trans3_findClosestDistinctTarget (t : Int) :
@@ -206,7 +206,7 @@ theorem trans3_restorePwmEnabled :
   · by_cases hm : w.ctl.origMode = 1
     · simp [hm]
     · rcases h2 : setPwmEnabled w.fan d1 w.ctl.origMode with ⟨d2, r2, o2⟩
-      cases r2 <;> simp [hm, h2, errOf]
+      cases r2 <;> simp [hm, h2, t3ErrOf]
 
 end Fan2go
 
